@@ -740,12 +740,23 @@ struct IdleWatch {
   std::atomic<int> watch{0};
   std::atomic<int> backstopJumps{0};
   int firstJumpTid = -1;
+  dispenso::ThreadPool* pool = nullptr;
+  // where the pending work sat when the first backstop expiry was needed (hook H2)
+  size_t queueSize = 0, rings = 0, stealRings = 0;
+  bool hint = false;
 };
 IdleWatch* g_idle = nullptr;
 void idleJumpCb(const dsched_jump* j) {
   if (g_idle && g_idle->watch.load(std::memory_order_relaxed) && j->why == DS_WHY_FUTEX && j->tid != 0) {
-    if (g_idle->backstopJumps.fetch_add(1) == 0)
+    if (g_idle->backstopJumps.fetch_add(1) == 0) {
       g_idle->firstJumpTid = j->tid;
+      if (g_idle->pool) {
+        g_idle->queueSize = g_idle->pool->verifCentralQueueSize();
+        g_idle->hint = g_idle->pool->verifCentralQueueHint();
+        g_idle->rings = g_idle->pool->verifNonEmptyRings();
+        g_idle->stealRings = g_idle->pool->verifNonEmptyStealRings();
+      }
+    }
     if (getenv("VF_DEBUG"))
       fprintf(stderr, "JUMP tid=%d why=%d from=%lu to=%lu %s\n", j->tid, j->why, (unsigned long)j->from_ns, (unsigned long)j->to_ns, dsched_table());
   }
@@ -766,12 +777,7 @@ void genC07(Rng& r, KV& kv, const Opts& o) {
   kv.set("sp", 0L); // spurious futex returns would only mask a missing wake
   // ring-targeted bulk wake with fewer tasks than sleepers in the seed group is a listed finding:
   // exclude that region by construction so the search continues behind it
-  if (o.isKnown("backstop:ts.bulk:ring") && path == 4) {
-    kv.set("path", 2L);
-  }
-  if (o.isKnown("backstop:parfor.static:ring") && path == 10) {
-    kv.set("path", 11L);
-  }
+  (void)o;
 }
 
 void runC07(Case& c) {
@@ -786,6 +792,7 @@ void runC07(Case& c) {
   bool ringPath = false;
   {
     dispenso::ThreadPool pool((size_t)n, (size_t)mult);
+    iw.pool = &pool;
     // park everybody: 3.5 backstop periods of virtual time, then let the rest settle
     dsched_sleep_ns(350000000ull);
     dsched_settle(200000);
@@ -859,8 +866,11 @@ void runC07(Case& c) {
       allIn.wait();
     iw.watch = 0;
     if (iw.backstopJumps.load() > 0) {
-      std::string sig = "backstop:" + sigPath + (ringPath ? ":ring" : "");
-      c.fail(sig, "path " + sigPath + " n=" + std::to_string(n) + " k=" + std::to_string(k) + ": all workers were parked; the submitted work only started after " +
+      // signature = mechanism: where the unstarted work was sitting while every worker was parked
+      std::string where = iw.rings ? "in-locality-ring" : iw.stealRings ? "in-steal-ring" : iw.queueSize ? "in-central-queue" : "nowhere";
+      std::string sig = "backstop:" + where;
+      c.fail(sig, "[work " + where + ", queue=" + std::to_string(iw.queueSize) + " hint=" + std::to_string((int)iw.hint) + " rings=" +
+                      std::to_string(iw.rings) + " stealRings=" + std::to_string(iw.stealRings) + "] path " + sigPath + " n=" + std::to_string(n) + " k=" + std::to_string(k) + ": all workers were parked; the submitted work only started after " +
                       std::to_string(iw.backstopJumps.load()) + " idle-sleep backstop expiry(ies) (virtual-time jump to worker th" +
                       std::to_string(iw.firstJumpTid) + "'s futex timeout)");
     }
@@ -955,7 +965,7 @@ void runC09(Case& c) {
       c.cls("some_workers_parked_at_call");
     if (parkedAtCall > 0 && parkedAtCall < n)
       c.cls("mixed_states_at_call");
-    c.nontrivial = true;
+    c.nontrivial = parkedAtCall > 0 || pre == 3;
     c.cls("action:" + c.phase);
     c.phase = "pool-dtor";
     pool.reset();
@@ -1121,6 +1131,8 @@ void genC04(Rng& r, KV& kv, const Opts& o) {
   kv.set("load", r.range(0, 3));    // 0 idle 1 workers gated + mult 1 (global overload) 2 set over own load factor 3 pool-recursive caller overloaded
   kv.set("cnt", r.range(1, 6));
   kv.set("scen", r.range(0, 1)); // 0: submit after cancel returned; 1: queued behind gates then cancel
+  if (n == 0 && kv.i("trigger") == 2)
+    kv.set("trigger", 0L); // a zero-thread pool runs the parent task inline: it could never be parked
   kv.setu("mp", 800000);
   kv.setu("fp", 400000);
 }
@@ -1222,24 +1234,47 @@ void runC04T(Case& c, Make make) {
         if (!w)
           c.fail("wait-not-cancelled", "wait() returned false after cancel()");
       } else {
-        if (trigger == 1) {
-          S->schedule([]() { throw Tagged{-7}; }, dispenso::ForceQueuingTag());
-          bool threw = false;
-          try {
-            S->wait();
-          } catch (const Tagged&) {
-            threw = true;
+        auto triggerCancel = [&]() {
+          if (trigger == 1) {
+            S->schedule([]() { throw Tagged{-7}; }, dispenso::ForceQueuingTag());
+            bool threw = false;
+            try {
+              S->wait();
+            } catch (const Tagged&) {
+              threw = true;
+            }
+            if (!threw)
+              c.fail("no-rethrow", "wait() did not rethrow the task exception");
+            if (!S->canceled())
+              c.fail("exception-did-not-cancel", "set not cancelled after a task threw and wait() rethrew");
+          } else {
+            S->cancel();
           }
-          if (!threw)
-            c.fail("no-rethrow", "wait() did not rethrow the task exception");
-          if (!S->canceled())
-            c.fail("exception-did-not-cancel", "set not cancelled after a task threw and wait() rethrew");
+        };
+        if (load == 3 && n > 0) {
+          // pool-recursive caller on an overloaded pool: n-1 workers gated, > 1.5n tasks pending, the
+          // remaining worker cancels and submits from inside a pool task
+          triggerCancel();
+          if (n > 1)
+            gate.close(pool, n - 1);
+          dispenso::CompletionEvent done;
+          pool.schedule(
+              [&]() {
+                for (long i = 0; i < 2 * n + 2; ++i)
+                  pool.schedule([&]() { filler.fetch_add(1); }, dispenso::ForceQueuingTag());
+                me = dsched_tid();
+                submitForm(*S, form, cnt, ff);
+                done.notify();
+              },
+              dispenso::ForceQueuingTag());
+          done.wait();
+          gate.release();
         } else {
-          S->cancel();
+          triggerCancel();
+          establishLoad();
+          submitForm(*S, form, cnt, ff);
+          gate.release();
         }
-        establishLoad();
-        submitForm(*S, form, cnt, ff);
-        gate.release();
         bool w = S->wait();
         if (!w)
           c.fail("wait-not-cancelled", "wait() returned false after cancellation");
@@ -1280,7 +1315,7 @@ thread_local int t_depth = 0;
 void genC46(Rng& r, KV& kv, const Opts& o) {
   kv.set("n", r.range(1, 3));
   kv.set("family", r.range(0, 4)); // 0 pool.schedule chain 1 TaskSet chain 2 CTS light chain 3 CTS heavy chain 4 nested bulk
-  kv.set("L", r.pick<long>({30, 60}));
+  kv.set("L", r.pick<long>({40, 80}));
   kv.set("scale", o.thorough() ? 10L : 6L);
   kv.setu("mp", 3000000);
   kv.setu("fp", 600000);
@@ -1290,15 +1325,16 @@ void genC46(Rng& r, KV& kv, const Opts& o) {
 
 int chainDepth(Case& c, long n, long family, long L) {
   DepthProbe dp;
+  // everything the tasks touch is declared before the pool, so it outlives every task
+  std::atomic<int> filler{0};
+  std::atomic<long> ran{0};
+  std::function<void(long)> link;
+  Gate gate;
   {
-    Gate gate;
     dispenso::ThreadPool pool((size_t)n, 1);
     gate.close(pool, n);
-    std::atomic<int> filler{0};
     for (long i = 0; i < 3 * n + 2; ++i)
       pool.schedule([&]() { filler.fetch_add(1); }, dispenso::ForceQueuingTag());
-    std::atomic<long> ran{0};
-    std::function<void(long)> link;
     std::unique_ptr<dispenso::TaskSet> ts;
     std::unique_ptr<dispenso::ConcurrentTaskSet> cts;
     if (family == 1)
@@ -1307,6 +1343,7 @@ int chainDepth(Case& c, long n, long family, long L) {
       cts = std::make_unique<dispenso::ConcurrentTaskSet>(pool, dispenso::TaskCost::kLightweight, (ssize_t)1);
     if (family == 3)
       cts = std::make_unique<dispenso::ConcurrentTaskSet>(pool, dispenso::TaskCost::kHeavy, (ssize_t)1);
+    int owner = dsched_tid();
     link = [&](long i) {
       ++t_depth;
       int d = t_depth;
@@ -1319,8 +1356,10 @@ int chainDepth(Case& c, long n, long family, long L) {
         auto next = [&link, i]() { link(i + 1); };
         if (family == 0)
           pool.schedule(next);
+        else if (family == 1 && dsched_tid() == owner)
+          ts->schedule(next); // TaskSet: single-thread use; a link running on a worker hands over to the pool
         else if (family == 1)
-          ts->schedule(next);
+          pool.schedule(next);
         else if (family == 2 || family == 3)
           cts->schedule(next);
         else
@@ -1334,10 +1373,16 @@ int chainDepth(Case& c, long n, long family, long L) {
       ts->wait();
     if (cts)
       cts->wait();
+    // links handed to the pool itself are not covered by a set's wait(): let them finish before
+    // the sets and the pool go away (a task must not use a pool that is being destroyed)
+    for (int spin = 0; spin < 100000 && ran.load() < L; ++spin)
+      dsched_sleep_ns(5000);
     ts.reset();
     cts.reset();
     c.phase = "pool-dtor";
   }
+  if (ran.load() != L)
+    c.fail("chain-incomplete", "chain ran " + std::to_string(ran.load()) + " of " + std::to_string(L) + " links");
   return dp.maxDepth.load();
 }
 
@@ -1349,7 +1394,8 @@ void runC46(Case& c) {
   int d2 = chainDepth(c, n, family, L * scale);
   static const char* fam[] = {"pool.schedule", "TaskSet.schedule", "CTS-light.schedule", "CTS-heavy.schedule", "CTS.scheduleBulk"};
   // metamorphic relation: a `scale`x longer chain may not nest deeper (beyond a small constant)
-  if (d2 > d1 + 4 || d2 > 80)
+  // violation iff the longer chain nests deeper AND beyond any plausible constant (kMaxInlineDepth is 32)
+  if (d2 > d1 + 4 && d2 > 48)
     c.fail(std::string("unbounded-depth:") + fam[family], std::string(fam[family]) + " chain under overload: inline nesting depth " + std::to_string(d1) +
                                                              " for L=" + std::to_string(L) + " but " + std::to_string(d2) + " for L=" +
                                                              std::to_string(L * scale) + " (grows with the number of tasks)");
@@ -1369,7 +1415,7 @@ const vf::Prop kProps[] = {
     {"C06", "prog", genC06, runC06, vf::kE1, 2500, 100000, "the program contains nested waits and some body ran while a wait was open"},
     {"C47", "prog", genC47, runC47, vf::kE1, 3000, 100000, "program contains at least one ForceQueuingTag submission (single or bulk)"},
     {"C07", "idle", genC07, runC07, vf::kE1, 1500, 60000, "fewer tasks than parked workers (the wake target choice matters) or more than one wake group (n > 2 with group size 2)"},
-    {"C09", "stop", genC09, runC09, vf::kE1, 2500, 80000, "every case (each drives workers into a generated state mix before the stop/resize/mode switch)"},
+    {"C09", "stop", genC09, runC09, vf::kE1, 2500, 80000, "at the call at least one worker was parked in its idle sleep, or workers were busy running tasks"},
     {"C08", "probe", genC08, runC08, vf::kE1, 1200, 50000, "history contains a resize (classified further: the resize overlapped an open submission)"},
     {"C04", "cancel", genC04, runC04, vf::kE1, 3000, 100000, "submission under load (gated/saturated pool), or tasks queued behind gates at cancel time, or parent cascade"},
     {"C46", "chain", genC46, runC46, vf::kE1, 300, 6000, "the inline path was actually taken (nesting depth >= 2 observed)"},
